@@ -587,11 +587,78 @@ def check_samename(recipe, ctx):
     ctx.outcome([recipe['name'], recipe['bases']])
 
 
+# ---------------------------------------------------------------------------
+# histories: instances of ONE class that differ in whether they can be rebuilt from their args
+
+class Quota(Exception):
+    """Quota('m') has args ('m',) and can be rebuilt; Quota('m', retry=5) has args ('m', 5) and cannot"""
+    def __init__(self, msg, *, retry=None):
+        if retry is None:
+            Exception.__init__(self, msg)
+        else:
+            Exception.__init__(self, msg, retry)
+        self.retry = retry
+
+
+class Pair(ValueError):
+    """Pair(1) -> args (1,): rebuilt as Pair(1) fine.  Pair(1, 2) -> args (3,): rebuilding changes nothing visible,
+    but Pair('a', 'b') -> args ('ab',) is rebuilt as Pair('ab') with the same args: always rebuildable"""
+    def __init__(self, a, b=None):
+        ValueError.__init__(self, a if b is None else a + b)
+
+
+class Strict(KeyError):
+    """Strict(k) stores (k, 'strict') as args: Strict(*args) raises TypeError -> never rebuildable"""
+    def __init__(self, k):
+        KeyError.__init__(self, k, 'strict')
+
+
+def gen_rebuild(draw):
+    kinds = ['quota-plain', 'quota-kw', 'pair', 'strict', 'valueerror', 'quota-kw', 'quota-plain']
+    return {'raises': [draw(st.sampled_from(kinds)) for _ in range(draw(st.integers(2, 6)))],
+            'wrap': draw(st.sampled_from(['dict', 'tuple', 'bare', 'coalesce']))}
+
+
+def check_rebuild(recipe, ctx):
+    made = {'quota-plain': lambda i: Quota('m%d' % i), 'quota-kw': lambda i: Quota('m%d' % i, retry=i),
+            'pair': lambda i: Pair('a', 'b%d' % i), 'strict': lambda i: Strict('k%d' % i), 'valueerror': lambda i: ValueError('v%d' % i)}
+    seq = recipe['raises']
+    ctx.nontrivial(len(set(seq)) >= 2)
+    if 'quota-kw' in seq and 'quota-plain' in seq[seq.index('quota-kw'):]:
+        ctx.label('rebuildable-after-unrebuildable')
+    for i, kind in enumerate(seq):
+        exc = made[kind](i)
+        try:
+            again = type(exc)(*exc.args)
+            rebuildable = again.args == exc.args
+        except Exception:
+            rebuildable = False
+
+        def site(t, exc=exc):
+            raise exc
+        spec = {'dict': {'k': site}, 'tuple': (T, site), 'bare': site, 'coalesce': Coalesce(T['nope'], site)}[recipe['wrap']]
+        try:
+            glom.glom({'a': 1}, spec)
+        except Exception as e:
+            where = 'raise #%d of %r (%s, args %r)' % (i + 1, seq, type(exc).__name__, exc.args)
+            if not isinstance(e, type(exc)):
+                raise Mismatch('class-lost', '%s came out as %s' % (where, [c.__name__ for c in type(e).__mro__]))
+            if e.args != exc.args:
+                raise Mismatch('args-changed', '%s came out with args %r' % (where, e.args))
+            if rebuildable and not isinstance(e, GlomError):
+                raise Mismatch('not-a-glomerror', '%s: this instance can be rebuilt from its args, the raised object must also be a '
+                               'GlomError; it is %s' % (where, [c.__name__ for c in type(e).__mro__]))
+        else:
+            raise Mismatch('error-swallowed', 'raise #%d: no error' % (i + 1))
+    ctx.outcome([seq, recipe['wrap']])
+
+
 SUBS = [
     Sub('matrix', check_case, enum=enum_matrix),
     Sub('deep', check_case, gen=gen_deep, quick=3000, thorough=15000,
         floors={'outcome-swallowed': 0.1, 'outcome-raised': 0.1, 'detected': 0.1}),
     Sub('reentrant', check_reentrant, gen=gen_reentrant, quick=1500, thorough=6000),
     Sub('samename', check_samename, gen=gen_samename, quick=400, thorough=2000),
+    Sub('rebuild', check_rebuild, gen=gen_rebuild, quick=600, thorough=3000, floors={'rebuildable-after-unrebuildable': 0.1}),
     Sub('mutsite', check_mutsite, enum=enum_mutsite),
 ]
